@@ -45,7 +45,7 @@ def check_c13(ctx):
             shape = "out-of-form" if x["pred"]["t"] == "none" else x["pred"]["t"]
             ctx.violation(f"{c}:{x['key']}:{shape}", f"C13 clause {c}: {x['text']!r} with the {x['conv']} converter: predicted {x['pred']}, "
                                                     f"observed {x['obs']}",
-                          dict(kind="stdmeta", clause=c, key=x["key"], val=x["val"], style=x["style"], conv=x["conv"], pred=x["pred"], obs=x["obs"]))
+                          dict(kind="stdmeta", clause=c, key=x["key"], val=x["val"], style=x["style"], conv=x["conv"], pred=x["pred"], number=x.get("number"), extra=x.get("extra"), obs=x["obs"]))
     ctx.evaluations = len(obs)
     ctx.nontrivial = len({(x["key"], "".join(x["val"]), x["conv"]) for x in obs if x["pred"]["t"] != "none"})
     ctx.rule = ("every key x value shape x spelling x style of CookMeta, enumerated by TLC (BFS, exhaustive; hash-sampled to 3000 per prediction kind and "
@@ -65,30 +65,9 @@ def check_c13(ctx):
 def replay_c13(ctx, case):
     core.build_harness()
     c = case["case"]
-    # every short string over small alphabets, read by the character-level transcription of the readers (spec/CookStdValue.tla)
-    n = 4 if ctx.tier == "quick" else 5
-    for kind in ("time", "timeE", "locale", "servings", "tags", "nameurl"):
-        r = core.run_tlc(ctx, "MC_StdValue", f"MC_StdValue_{kind}{n + 2 if kind == 'nameurl' else n}.cfg", workers=8, timeout=3000)
-        ctx.model_violation(r)
-        recs += r.replay
-    ctx.extra["strings_enumerated_by_CookStdValue"] = sum(1 for x in recs if x.get("style") == "yamlstring" and len(x.get("val", [])) == 1)
-    none = dict(t="none")
-    # a converter whose minutes cannot be found under an English key while `m` is the metre: number-unit durations are all
-    # out of form there (lengths included); plain minutes and the compact form do not need units
-    for key in ("time", "prep time", "cook time", "duration"):
-        for style in ("old", "yaml"):
-            for v, pred in [("2 km", none), ("90 m", none), ("30 feet", none), ("5 metros", none), ("10 minutos", none), ("1 hora 5 mn", none),
-                            ("45", dict(t="minutes", n="45")), ("1h30m", dict(t="minutes", n="90"))]:
-                recs.append(dict(conv="nominutes", key=key, style=style, val=[v], pred=pred, number=(v == "45")))
-    # an out-of-form total time next to valid prep / cook times: still nothing from the accessors
-    for conv in ("bundled", "empty"):
-        for style in ("old", "yaml"):
-            for v in ["soon", "1h30", "-5", "99999999999 min", "[1, 2]" if style == "yaml" else "1 2 3"]:
-                for extra in ([["prep time", "10 min"]], [["cook time", "20 min"]], [["prep time", "10 min"], ["cook time", "1h"]]):
-                    recs.append(dict(conv=conv, key="time", style=style, val=[v], pred=none, number=False, extra=extra))
     pin = os.path.join(ctx.work, "meta_in.ndjson")
     pout = os.path.join(ctx.work, "meta_obs.ndjson")
-    core.write_ndjson(pin, [dict(key=c["key"], val=c["val"], style=c["style"], conv=c["conv"], pred=c["pred"])])
+    core.write_ndjson(pin, [{k: c[k] for k in ("key", "val", "style", "conv", "pred", "number", "extra") if c.get(k) is not None}])
     core.run_harness(ctx, ["stdmeta", "--in", pin, "--out", pout])
     n, bad, _ = core.run_judge(ctx, "Trace_StdMeta", pout)
     for line, names in bad:
